@@ -39,7 +39,7 @@ def with_timeout(seconds, fn, *a, **kw):
 
 
 # ------------------------------------------------------------------------------------------------ generator
-def gen_program(rng, cyclic=True, negation=True, ads=True, evidence=True, max_level=2):
+def gen_program(rng, cyclic=True, negation=True, ads=True, evidence=True, max_level=2, negloops=0.0):
     """Typed random program: base facts (probabilistic/deterministic), derived predicates on levels (negation only on
     strictly lower levels => predicate-level stratified; positive recursion allowed within a level), ADs with and
     without bodies, ground and non-ground queries, evidence that holds in a sampled world (consistent by construction,
@@ -74,6 +74,9 @@ def gen_program(rng, cyclic=True, negation=True, ads=True, evidence=True, max_le
         bound = set()
         cands_pos = [p for p, (a, l) in preds.items() if (l <= hl if cyclic else l < hl)]
         cands_neg = [p for p, (a, l) in preds.items() if l < hl]
+        if negloops and rng.random() < negloops:
+            # C02: negation on the same or a higher level may close a cycle through negation
+            cands_neg = [p for p, (a, l) in preds.items() if l > 0] or cands_neg
         for j in range(rng.randint(1, 3)):
             if negation and j > 0 and cands_neg and rng.random() < 0.3:
                 p = rng.choice(cands_neg)
@@ -357,6 +360,35 @@ def f1_condition(P):
     return False
 
 
+def poscycle_in_negcycle_scc(P):
+    """Structural condition of known finding C02-missed-negative-cycle: a strongly connected component of the ground
+    dependency graph that contains a cycle through negation also contains a cycle through positive edges only."""
+    rules, _ = reference(P)
+    dep, pdep = {}, {}
+    for h, b, c in rules:
+        dep.setdefault(h, set()).update(a for t, a in b)
+        pdep.setdefault(h, set()).update(a for t, a in b if t == "pos")
+
+    def reach(g, a):
+        seen, st = set(), [a]
+        while st:
+            x = st.pop()
+            for y in g.get(x, ()):
+                if y not in seen:
+                    seen.add(y)
+                    st.append(y)
+        return seen
+    R = {a: reach(dep, a) for a in dep}
+    for h, b, c in rules:
+        for t, a in b:
+            if t == "neg" and h in R.get(a, set()):
+                scc = {x for x in R[h] if h in R.get(x, set())} | {h}
+                for x in scc:
+                    if x in reach({k: v & scc for k, v in pdep.items() if k in scc}, x):
+                        return True
+    return False
+
+
 def query_instances(P):
     q = []
     for p, args in P["queries"]:
@@ -399,12 +431,13 @@ def parse_sem(out, qinst):
     """-> dict(z, probs{atom_s: Fraction or None}, undef, nworlds, negcycle)"""
     if out.startswith("toobig"):
         return None
-    m = re.match(r"(\S+) \(([^)]*)\) (\d+) (\d+) (\w+)$", out)
+    m = re.match(r"(\S+) \(([^)]*)\) (\d+) (\d+) (\w+) (\w+) (\d+)$", out)
     if not m:
         raise Infra("bad SEM output: " + out[:200])
     z = F(m.group(1))
     nums = [F(x) for x in m.group(2).split()]
-    res = dict(z=z, undef=int(m.group(3)), nworlds=int(m.group(4)), negcycle=(m.group(5) == "true"))
+    res = dict(z=z, undef=int(m.group(3)), nworlds=int(m.group(4)), negcycle=(m.group(5) == "true"),
+               negcycle_full=(m.group(6) == "true"), undef_roots=int(m.group(7)))
     res["probs"] = {atom_s(q): (n / z if z != 0 else None) for q, n in zip(qinst, nums)}
     return res
 
